@@ -240,8 +240,10 @@ func NewCustomType(specCustom string, st InternalSchemaType) (CustomType, Import
 		typeName = customType
 	}
 
-	dotIdx := strings.LastIndex(specCustom, ".")
+	// the package qualifier is the dot of the last path element (a dot in the host name is not one)
+	dotIdx := strings.LastIndex(specCustom[slIdx+1:], ".")
 	if dotIdx >= 0 {
+		dotIdx += slIdx + 1
 		// github.com/username/name.MyType
 		//                         ^
 		// OR
